@@ -950,6 +950,13 @@ func c13Parse(maxLen int) *Scenario {
 					judge([]byte(in))
 				}
 			}
+			for _, ns := range []string{"\v", "\f", "\u0085", "\u00a0", "\u2028", "\u3000", "\ufeff", "\x00"} {
+				for _, a := range reps[:4] {
+					for _, in := range []string{ns + a, a + ns, ns + "[" + a + "]", "[" + a + "]" + ns, "[" + ns + a + "]", ns} {
+						judge([]byte(in))
+					}
+				}
+			}
 			alpha := []byte(`{}[]":,1an `)
 			var rec func(cur []byte)
 			rec = func(cur []byte) {
